@@ -1,4 +1,4 @@
-import SradModel.Model.Eon
+import SradModel.Model.EonSpec
 import SradModel.Drv.Util
 import Std.Data.HashSet
 
@@ -27,6 +27,7 @@ def showObs : Obs → String
       (match bd with | some n => s!":bd={n}" | none => "") ++
       (if t then ":try" else ":blk") ++
       (match dec with | .acc => ":acc" | .rej => ":rej" | .park => ":park")
+  | .resolved id ok => s!"R{id}:" ++ (if ok then "ok" else "err")
   | .will bd => s!"W:bd={bd}"
   | .poll => "P"
   | .polled e => "E:" ++ (match e with | .online => "Online" | .offline => "Offline" | .node => "Node" | .device => "Device" | .other => "Other")
@@ -101,7 +102,60 @@ def greedyDiag : Nat → St → List String → Nat → Nat × List String
 def enabledObs (s : St) : List String :=
   ((tasks s).flatMap fun t => (step s t .acc).flatMap fun c => c.2.take 1 |>.map showObs).eraseDups
 
+def parseCall (parts : List String) : Option Obs :=
+  -- C<id>:<KIND>[:d=..][:seq=..][:bd=..]:<try|blk>:<dec>
+  match parts with
+  | idp :: kind :: rest =>
+    match (idp.drop 1).toString.toNat?, parseCK kind with
+    | some id, some k =>
+      let fld (pre : String) : Option Nat := rest.findSome? fun p => if p.startsWith pre then (p.drop pre.length).toString.toNat? else none
+      let isTry := rest.contains "try"
+      let dec : Dec := if rest.contains "park" then .park else if rest.contains "rej" then .rej else .acc
+      some (.call id k (fld "d=") (fld "seq=") (fld "bd=") isTry dec)
+    | _, _ => none
+  | _ => none
+
+/-- an observed token as a model observation (for evaluating the property scanners on real traces) -/
+def parseObs (t : String) : Option Obs :=
+  let parts := t.splitOn ":"
+  if t == "P" then some .poll
+  else if t == "X" then some .runReturned
+  else if t == "B:node" then some .bNode
+  else if t == "CB:ncmd" then some .cbNcmd
+  else if t.startsWith "W:bd=" then (t.drop 5).toString.toNat?.map .will
+  else if t.startsWith "B:dev:" then (t.drop 6).toString.toNat?.map .bDev
+  else if t.startsWith "CB:dcmd:" then (t.drop 8).toString.toNat?.map .cbDcmd
+  else if t.startsWith "E:" then
+    some (.polled (match (t.drop 2).toString with
+      | "Online" => .online | "Offline" => .offline | "Node" => .node | "Device" => .device | _ => .other))
+  else if t.startsWith "R" then
+    match parts with
+    | [a, b] => (a.drop 1).toString.toNat?.map fun id => .resolved id (b == "ok")
+    | _ => none
+  else if t.startsWith "C" then parseCall parts
+  else if t.startsWith "U" then
+    match parts with
+    | a :: rest => (a.drop 1).toString.toNat?.map fun j => .ures j (match rest with
+        | ["ok"] => .ok | ["cancelled"] => .cancelled | ["err", "NoMetrics"] => .noMetrics
+        | ["err", "Offline"] => .offline | ["err", "UnBirthed"] => .unbirthed | _ => .duplicate)
+    | _ => none
+  else none
+
+/-- evaluate every property scanner on a trace; returns the names of those that fail -/
+def verdict (tr : List Obs) : List String :=
+  let devs := (tr.filterMap fun o => match o with | .call _ _ (some d) _ _ _ _ => some d | _ => none).eraseDups
+  (if seqOk none tr then [] else ["C02:seqOk"]) ++
+  (if nbirthBdOk none tr then [] else ["C03:nbirthBdOk"]) ++
+  (if willChainOk none false false tr then [] else ["C03:willChainOk"]) ++
+  (if ndeathBdOk none false false tr then [] else ["C03:ndeathBdOk"]) ++
+  (if gateOk false none tr then [] else ["C01:gateOk"]) ++
+  (if firstAfterSubOk false tr then [] else ["C01:firstAfterSubOk"]) ++
+  (devs.flatMap fun d => (if ddataOk d .none tr then [] else [s!"C04:ddataOk:{d}"]) ++
+                         (if ddeathOk d false tr then [] else [s!"C04:ddeathOk:{d}"])) ++
+  (if tryOk tr then [] else ["C20:tryOk"])
+
 structure EonD where
+  trace : List Obs := []           -- the observed trace of the case so far (reversed)
   sts : List St := [Eon.init 0]    -- every model state consistent with the observations so far
   users : Nat := 0                 -- number of user calls issued so far
 
@@ -142,7 +196,7 @@ def parseStim (d : EonD) (ws : List String) : Option (Stim × EonD) :=
 
 /-- harness-level tokens that are not observations of srad: `R<id>:…` echoes of a resolve stimulus
 and `U:err:Duplicate` / `U:err:NoDevice` produced by the harness itself -/
-def isHarnessTok (t : String) : Bool := t.startsWith "R" || t.startsWith "U:err:"
+def isHarnessTok (t : String) : Bool := t.startsWith "U:err:"
 
 def splitArrow (ws : List String) : List String × List String :=
   match ws.span (· ≠ "=>") with
@@ -156,16 +210,21 @@ def stepEon (d : EonD) (ws : List String) : EonD × String :=
     | [] => []
     | ["-"] => []
     | l => (joinWith " " l).splitOn ";" |>.filter (fun t => t ≠ "" && !isHarnessTok t)
+  let d := { d with trace := (toks.filterMap parseObs).reverse ++ d.trace }
   -- run the line from every state still possible; keep the union of the reachable end states
-  let run (starts : List St) (d : EonD) : EonD × String :=
-    let res := starts.map fun s => exploreAll 60000 s toks
+  let run (starts : List (St × List Obs)) (d : EonD) : EonD × String :=
+    -- what the stimulus itself emits (a resolution echo) must come first
+    let res := starts.map fun (s, pre) =>
+      match matchPrefix pre toks with
+      | some rest => exploreAll 60000 s rest
+      | none => ([], false)
     let ends := (res.flatMap (·.1)).foldl (fun acc s => if acc.contains s then acc else s :: acc) []
     let exhausted := res.any (·.2)
     if !ends.isEmpty then ({ d with sts := (ends.take 64).map fun s => { s with wall := s.wall + 1 } }, "ok")
     else
-      let s := starts.headD (Eon.init 0)
+      let s := (starts.map (·.1)).headD (Eon.init 0)
       let (k, en) := greedyDiag 400 s toks 0
-      ({ d with sts := starts.map fun s => { s with wall := s.wall + 1 } },
+      ({ d with sts := starts.map fun p => { p.1 with wall := p.1.wall + 1 } },
         (if exhausted then "budget-exhausted" else "rejected") ++
           s!" states={starts.length} greedy-matched={k}/{toks.length} then-model-enabled=[" ++ joinWith "," en ++ "]")
   -- the harness answers `U:err:NoDevice` / `U:err:Duplicate` / … itself when it has no handle for
@@ -174,18 +233,22 @@ def stepEon (d : EonD) (ws : List String) : EonD × String :=
     | [] => false
     | l => ((joinWith " " l).splitOn ";").any (fun t => t.startsWith "U:err:"))
   match req with
+  | ["verdict"] =>
+    -- the property scanners of `Model/EonSpec` evaluated on the observed trace of this case
+    let v := verdict d.trace.reverse
+    (d, if v.isEmpty then "ok" else "scanner-fails " ++ joinWith "," v)
   | "new" :: rest =>
     match (rest.findSome? fun w => if w.startsWith "cd=" then (w.drop 3).toString.toNat? else none) with
     | some cd =>
       let s0 : St := { Eon.init cd with wall := 1000000 }
-      run [s0] { sts := [s0], users := 0 }
+      run [(s0, [])] { sts := [s0], users := 0, trace := (toks.filterMap parseObs).reverse }
     | none => (d, "bad-op")
   | "stim" :: rest =>
-    if harnessRefused then run d.sts d
+    if harnessRefused then run (d.sts.map fun s => (s, [])) d
     else
       match parseStim d rest with
-      | some (stim, d') => run (d.sts.map fun s => (applyStim s stim).1) d'
-      | none => if rest.head? = some "rule" then run d.sts d else (d, "bad-op")
+      | some (stim, d') => run (d.sts.map fun s => applyStim s stim) d'
+      | none => if rest.head? = some "rule" then run (d.sts.map fun s => (s, [])) d else (d, "bad-op")
   | _ => (d, "bad-op")
 
 end Srad.Drv
